@@ -33,6 +33,8 @@ Inductive expr :=
 | EList (d : str) (e : expr)
 | EUniqueList (d : str) (e : expr)
 | EPartition (vs : list str) (e : expr)   (* i := a.Invoke(c); Batch(i.Filter(vs).ToA(), i.Retain(vs).ToA()) *)
+| ESetenv (k v : str) (e : expr)          (* callback: c.Setenv(k, v); invoke e beneath *)
+| EGetenv (k : str)                      (* callback: ActionValues("E" + c.Getenv(k)) *)
 | EBatch (es : list expr).
 
 Definition us : str := B [31].
@@ -74,6 +76,8 @@ Section Sem.
     | EPartition vs e =>
         let a := denote e in
         callback (fun c => let i := invoke a c in Batch [Filter vs (to_a i); Retain vs (to_a i)])
+    | ESetenv k v e => Setenv k v (denote e)
+    | EGetenv k => Getenv k
     | EBatch es => Batch (map denote es)
     end.
 
@@ -147,20 +151,23 @@ Section Sem.
         else if (n =? 1)%Z then (match cparts c with [] => eval e0 c | _ => eval e1 c end)
         else
           let '(done, parts, cur) := mpn_split sep n (cvalue c) in
-          let c' := mkCtx cur (cargs c) parts in
+          let c' := with_vp c cur parts in
           let '(m, rs) := match parts with [] => eval e0 c' | _ => eval e1 c' end in
           (set_nospace m (sm_add (nospace m) [sep_nospace sep]), rv_prefix done rs)
     (* List / UniqueList: items separated by d, no space after any candidate (`*`) *)
     | EList d e =>
         let '(done, parts, cur) := mpn_split d (-1) (cvalue c) in
-        let '(m, rs) := eval e (mkCtx cur (cargs c) parts) in
+        let '(m, rs) := eval e (with_vp c cur parts) in
         (set_nospace m (B [42]), rv_prefix done rs)
     | EUniqueList d e =>
         let '(done, parts, cur) := mpn_split d (-1) (cvalue c) in
-        let '(m, rs) := eval e (mkCtx cur (cargs c) parts) in
+        let '(m, rs) := eval e (with_vp c cur parts) in
         (set_nospace m (B [42]), rv_prefix done (rv_filter parts rs))
     | EPartition vs e =>
         let '(m, rs) := eval e c in merge_invoked [(m, rv_filter vs rs); (m, rv_retain vs rs)]
+    (* changes to the Context are visible beneath the callback only *)
+    | ESetenv k v e => eval e (set_env c k v)
+    | EGetenv k => (meta0, map raw_of (filter (fun v => negb (is_empty v)) [B [69] ++ lookup_env (cenv c) k]))
     (* Batch: union by inserted value (later member wins), meta united, last non-empty usage *)
     | EBatch es =>
         merge_invoked ((fix go (l : list expr) : list invoked :=
